@@ -100,6 +100,63 @@ type relation struct {
 	tag   string
 	fk    *field // belongs-to: the owner's foreign-key field
 	index int    // index of the (top-level) struct field
+	// permission tag of the relation FIELD: a relation without create (update) permission, a read-only
+	// or an ignored one is never written - its records are not saved, its links not made - by a create
+	// (update) of the owner
+	perm      string
+	canCreate bool
+	canUpdate bool
+	ignored   bool // "-", "-:all", "<-:false;->:false": gorm does not even parse the field as a relation
+}
+
+// relPerms: permission tags of relation fields (weights: 10 in 23 keep full permission).
+var relPerms = []permSpec{
+	{tag: "", create: true, update: true, weight: 8},
+	{tag: "<-:create", create: true, weight: 3},
+	{tag: "<-:update", update: true, weight: 2},
+	{tag: "<-:false", weight: 2},
+	{tag: "->", weight: 2},
+	{tag: "->;<-:create", create: true, weight: 1},
+	{tag: "<-", create: true, update: true, weight: 1},
+	{tag: "-:migration", create: true, update: true, weight: 1},
+	{tag: "-", ignored: true, weight: 1},
+	{tag: "-:all", ignored: true, weight: 1},
+	{tag: "<-:false;->:false", ignored: true, weight: 1},
+}
+
+// full: the relation field has every permission (association mode is only run on such relations).
+func (rl *relation) full() bool { return rl.canCreate && rl.canUpdate && !rl.ignored }
+
+// denied: may the records carried by the relation field NOT be written on the given paths?
+func (rl *relation) denied(create, update bool) bool {
+	if rl.ignored {
+		return true
+	}
+	return !(create && rl.canCreate) && !(update && rl.canUpdate)
+}
+
+// tables: the tables a write through the relation touches.
+func (rl *relation) tables() []string {
+	switch rl.typ {
+	case "has-many":
+		return []string{"c10_pets"}
+	case "has-one":
+		return []string{"c10_toys"}
+	case "belongs-to":
+		return []string{"c10_companies"}
+	}
+	return []string{"c10_tags", joinTable}
+}
+
+// fullRels: the relations association mode may be run on.
+func (m *model) fullRels() []*relation {
+	var out []*relation
+	for _, rl := range m.rels {
+		if rl.full() {
+			out = append(out, rl)
+		}
+	}
+	return out
 }
 
 func (rl *relation) elemType() reflect.Type {
@@ -138,10 +195,11 @@ func (rl *relation) decl() string {
 	return rl.name + " " + tn + " `gorm:\"" + rl.tag + "\"` /* " + rl.typ + " */"
 }
 
-// genRelations: one model in three gets 1..2 association fields. Foreign keys and references are
-// always named in the tag (the defaults are derived from the owner's type name, which is empty).
+// genRelations: one model in two gets 1..2 association fields, each with a random permission tag
+// (relPerms). Foreign keys and references are always named in the tag (the defaults are derived from
+// the owner's type name, which is empty).
 func (m *model) genRelations(r *core.Rand, add func(*field) *field) {
-	if !r.Chance(1, 3) {
+	if !r.Chance(1, 2) {
 		return
 	}
 	var pkNames, ownFK, ownFKNames []string
@@ -194,6 +252,26 @@ func (m *model) genRelations(r *core.Rand, add func(*field) *field) {
 		default:
 			rl.name = "Tags"
 			rl.tag = "many2many:" + joinTable + ";foreignKey:" + strings.Join(pkNames, ",") + ";joinForeignKey:" + strings.Join(ownFK, ",") + ";references:ID;joinReferences:TagID"
+		}
+		// the permission tag of the relation field, in front of or behind the key names
+		tot := 0
+		for _, ps := range relPerms {
+			tot += ps.weight
+		}
+		x := r.Intn(tot)
+		for _, ps := range relPerms {
+			if x < ps.weight {
+				rl.perm, rl.canCreate, rl.canUpdate, rl.ignored = ps.tag, ps.create, ps.update, ps.ignored
+				break
+			}
+			x -= ps.weight
+		}
+		if rl.perm != "" {
+			if r.Bool() {
+				rl.tag = rl.perm + ";" + rl.tag
+			} else {
+				rl.tag += ";" + rl.perm
+			}
 		}
 		m.rels = append(m.rels, rl)
 	}
@@ -295,7 +373,7 @@ type assocOp struct {
 
 func (g *gen) genAssoc(o *op, kind string) {
 	r, m := g.r, g.m
-	a := &assocOp{rel: core.Pick(r, m.rels), verb: strings.TrimPrefix(kind, "assoc-")}
+	a := &assocOp{rel: core.Pick(r, m.fullRels()), verb: strings.TrimPrefix(kind, "assoc-")}
 	o.assoc = a
 	o.family = "association-" + a.verb
 	rl := a.rel
@@ -372,14 +450,14 @@ func (g *gen) genAssoc(o *op, kind string) {
 	a.withTable = safe && r.Chance(1, 3)
 }
 
-func seedChildren(m *model, o *op) {
+func seedChildren(m *model, ownerKey lval) {
 	for _, q := range []string{"DELETE FROM c10_pets", "DELETE FROM c10_toys", "DELETE FROM c10_companies", "DELETE FROM c10_tags", "DELETE FROM " + joinTable} {
 		_, err := H.SQL.Exec(q)
 		must(err)
 	}
 	// the first owner is linked to pet 1, toy 1 and tag 1
 	var own [4]interface{}
-	parts := m.keyParts(o.modelKeys[0])
+	parts := m.keyParts(ownerKey)
 	switch {
 	case len(parts) == 2:
 		own[2], own[3] = parts[0].v, parts[1].v
